@@ -40,7 +40,7 @@ def generate(ctx):
                "trainable_feedback": True, "transforms": False, "capture": False,
                "trainer": trainer, "signs": rng.randrange(4), "trace_mode": rng.choice(["cumulative", "nearest"]),
                "delayed": bool(delay) and rng.random() < 0.5, "inplace": rng.random() < 0.5,
-               "reducer": rng.choice(REDUCERS), "reducer_duration": rng.choice([0.0, 3.0, 2.5, 1.0]), "classifier": target == "clone" or rng.random() < 0.5, "vmon": ["ca", "ema", None][(i // 9) % 3],
+               "reducer": rng.choice(REDUCERS), "reducer_duration": rng.choice([0.0, 3.0, 2.5, 1.0]), "classifier": target == "clone" or rng.random() < 0.5, "vmon": ["ca", "ema", None][(i // 9) % 3], "update_every": [1, 3][(i // 2) % 2],
                "target": target, "reducer_clear_at": rng.choice([None, 2, 4])}
 
 
@@ -95,7 +95,9 @@ class System:
                 self.trainer(0.5 if t % 2 == 0 else -0.25)
             else:
                 self.trainer()
-            self.layer.update()
+            # updates accumulate over `update_every` steps before they are applied: a checkpoint in between carries pending parts
+            if (t + 1) % self.d.get("update_every", 1) == 0:
+                self.layer.update()
         o = outs[self.first_out]
         if self.reducer is not None:
             self.reducer(o.float())
@@ -158,7 +160,7 @@ def run_case(ctx, desc):
     g = torch.Generator().manual_seed(desc["seed"] + 1)
     T = desc["T"]
     xs = [c17._inputs(desc, ref.parts, g) for _ in range(T)]
-    other = [c17._inputs(desc, ref.parts, g) for _ in range(4)]
+    other = [c17._inputs(desc, ref.parts, g) for _ in range(7)]
     try:
         ref_outs = [ref.step(x, t) for t, x in enumerate(xs)]
     except Exception as e:  # noqa: BLE001
@@ -181,8 +183,20 @@ def run_case(ctx, desc):
             sds = src.checkpoint()
             dst = System(desc)
             nwarm = 1 if desc["target"] == "fresh" else 3
+            n_upd = desc.get("update_every", 1)
+            if n_upd > 1 and desc["trainer"] != "none":
+                # pending (accumulated, not yet applied) update parts are list entries of the state dict: a strict load needs
+                # the target to hold as many of them as the checkpoint, so the target is warmed to the same phase of the
+                # update schedule (the mismatching case is probed separately below)
+                nwarm = (k % n_upd or n_upd) + (0 if desc["target"] == "fresh" else n_upd)
+                ctx.count("checkpoints_with_pending_updates", int(k % n_upd != 0))
+            base = 0
+            if n_upd > 1 and desc["trainer"] != "none":
+                base = k - nwarm             # same phase of the update schedule and of the reward-sign pattern as the source
+                while base < 0:
+                    base += 2 * n_upd
             for j in range(nwarm):
-                dst.step(other[j], j)        # warm: shapes exist; state is arbitrary and must be overwritten by the load
+                dst.step(other[j], base + j)        # warm: shapes exist; state is arbitrary and must be overwritten by the load
             if desc["target"] == "clone" and dst.classifier is not None:
                 # "another instance of the same configuration" obtained by copying a used one (copy.deepcopy of a plain
                 # buffer-only module; the template stays alive).  Modules holding RecordTensors are not cloned this way.
@@ -214,6 +228,33 @@ def run_case(ctx, desc):
                 return ctx.violation(f"restore.final_state_differs.{group}.{_leafclass(name)}",
                                      f"checkpoint at {k}: final '{name}' differs from the uninterrupted run", rdesc)
         ctx.count("final_states_compared")
+    # ---- a target in a different phase of the update schedule (an "arbitrary prior state"): the checkpoint holds two pending
+    # update parts per accumulator, the target one.  The uninterrupted run applies BOTH checkpointed parts at the next update.
+    if desc.get("update_every", 1) > 1 and desc["trainer"] != "none" and T > 4:
+        rdesc = {**desc, "checkpoint_at": 2, "target_phase": 1}
+        ctx.case(f"{tag}/phase_mismatch")
+        ctx.count("phase_mismatch_probes")
+        src, dst = System(desc), System(desc)
+        for t in range(2):
+            src.step(xs[t], t)
+        dst.step(other[0], 0)
+        sds = src.checkpoint()
+        try:
+            dst.restore(sds)
+        except RuntimeError as e:
+            if "updates_" in str(e) and ("Unexpected key" in str(e) or "Missing key" in str(e)):
+                return ctx.violation("restore.refused.pending_update_parts_count_differs",
+                                     "a checkpoint taken between two applications of accumulated updates cannot be loaded into an "
+                                     "instance holding a different number of pending parts: load_state_dict refuses (strict) - or "
+                                     "would drop them (strict=False)", rdesc, {"error": str(e)[:300]})
+            raise
+        for t in range(2, T):
+            outs = dst.step(xs[t], t)
+        fin = dst.full_state()
+        for name in ref_final:
+            if name in fin and not _same(fin[name], ref_final[name]):
+                return ctx.violation(f"restore.phase_mismatch.final_state_differs.{_leafclass(name)}",
+                                     f"final '{name}' differs from the uninterrupted run", rdesc)
 
 
 def _leafclass(name):
